@@ -124,6 +124,16 @@ func newZcase(fn int, in []byte) (*zcase, bool) {
 	return z, ok
 }
 
+// newZcaseCold builds a case whose Buffer has seen exactly ONE successful call of fn.
+func newZcaseCold(fn int, in []byte) (*zcase, bool) {
+	z := &zcase{fn: fn, in: append([]byte(nil), in...), h: &nopHandler{}, buf: &rjson.Buffer{}}
+	ok := false
+	if err := core.Catch(func() error { ok = z.run(); return nil }); err != nil {
+		return z, false
+	}
+	return z, ok
+}
+
 // allocsOf measures the average number of heap allocations of the batch.
 func allocsOf(batch []*zcase, runs int) float64 {
 	return testing.AllocsPerRun(runs, func() {
@@ -250,6 +260,31 @@ func CheckC19(c *core.Case) error {
 	fn := c19FuncIndex(c.Strs[0])
 	if fn < 0 {
 		return fmt.Errorf("unknown function %q", c.Strs[0])
+	}
+	if c.Kind == "cross-warm" && len(c.Strs) >= 2 {
+		var ms runtime.MemStats
+		min := ^uint64(0)
+		for trial := 0; trial < 5 && min != 0; trial++ {
+			w, wok := newZcaseCold(c19FuncIndex(c.Strs[1]), c.In)
+			if !wok {
+				return nil
+			}
+			z := &zcase{fn: fn, in: w.in, buf: w.buf, h: w.h}
+			runtime.ReadMemStats(&ms)
+			before := ms.Mallocs
+			ok := z.run()
+			runtime.ReadMemStats(&ms)
+			if !ok {
+				return nil
+			}
+			if x := ms.Mallocs - before; x < min {
+				min = x
+			}
+		}
+		if min > 0 {
+			return fmt.Errorf("%s allocates %d times on its first call with a Buffer that %s has just used successfully on the same document", c.Strs[0], min, c.Strs[1])
+		}
+		return nil
 	}
 	z, ok := newZcase(fn, c.In)
 	if !ok {
